@@ -50,7 +50,7 @@ Section RKNProofs.
     {| rp := upd (rp st) (S m) (rkn_xpos st (rp st 0) (rv st 0) m);
        rv := upd (rv st) (S m) (rkn_xvel st (rv st 0) m);
        rf := if Nat.eqb m (M - 1) then rf st
-             else upd (rf st) (S m) (feval (rkn_xpos st (rp st 0) (rv st 0) m) (rkn_xvel st (rv st 0) m) (tn m)) |}.
+             else upd (rf st) (S m) (feval (rkn_xpos st (rp st 0) (rv st 0) m) (rkn_xvel st (rv st 0) m) (tn (S m))) |}.
   Proof. unfold rkn_stage. rewrite rkn_inner_explicit. reflexivity. Qed.
 
   Lemma rkn_acc_ext (r s : st_t) j :
@@ -65,7 +65,7 @@ Section RKNProofs.
     (forall m, k <= m < k + n ->
        rp r (S m) = rkn_xpos r (rp st 0) (rv st 0) m /\
        rv r (S m) = rkn_xvel r (rv st 0) m /\
-       (S m < M -> rf r (S m) = feval (rp r (S m)) (rv r (S m)) (tn m)) /\
+       (S m < M -> rf r (S m) = feval (rp r (S m)) (rv r (S m)) (tn (S m))) /\
        (S m = M -> rf r (S m) = rf st (S m))).
   Proof.
     induction n as [|n IH]; intros k st Hk; cbn [seq fold_left].
@@ -108,15 +108,14 @@ Section RKNProofs.
      For EVERY number of stages, tableaus QI (velocity), Qx (position), nodes, dt, level data and problem:
        x_m = x_0 + dt c_m v_0 + dt^2 sum_{j<m} Qx[m,j] a_j,     v_m = v_0 + dt sum_{j<m} QI[m,j] a_j,
        a_j = build_f(f_j, (x_j, v_j), t0 + dt c_j)  built from the NEW stage values,
-     the stored fields of stage m < M are eval_f at the new stage value and at time t0 + dt*c_{m-1} (sic: the node of
-     the previous stage, see rkn_stage_time_refuted in Model/SweepRKNExec.v), the last node's fields, node 0 and everything beyond M
-     are untouched. *)
+     the stored fields of stage m < M are eval_f at the new stage value and at the stage's OWN time t0 + dt*c_m,
+     the last node's fields, node 0 and everything beyond M are untouched. *)
   Theorem rkn_explicit_stage_form (st : st_t) :
     let r := update false st in
     (forall j, j = 0 \/ M < j -> rp r j = rp st j /\ rv r j = rv st j /\ rf r j = rf st j) /\
     rf r M = rf st M /\
     forall m, 1 <= m <= M ->
-      (m < M -> rf r m = feval (rp r m) (rv r m) (tn (m - 1))) /\
+      (m < M -> rf r m = feval (rp r m) (rv r m) (tn m)) /\
       forall x,
         rp r m x = rp st 0 x +! dt *! nodes m *! rv st 0 x +! dt *! dt *! sumf (fun j => Qx m j *! rkn_acc r j x) 1 (m - 1) /\
         rv r m x = rv st 0 x +! dt *! sumf (fun j => QI m j *! rkn_acc r j x) 1 (m - 1).
@@ -253,21 +252,24 @@ Example rkn_velocity_verlet_hyps_sat :
   (forall c c' d fo fn p v, (forall x, c x = c' x) -> forall x, boris c d fo fn p v x = boris c' d fo fn p v x).
 Proof. split; [reflexivity|]. intros c c' d fo fn p v H x. cbv beta. rewrite H. reflexivity. Qed.
 
-(* The clause of C02 "the stored right-hand sides are f at the node's OWN time and new value" is REFUTED for
-   RungeKuttaNystrom.update_nodes: with the shipped RKN tableau (nodes 0, 0, 1/2, 1/2, 1, 1 in pySDC layout) and fields
-   that depend on time only, stage 2 stores the fields of time t0 + dt*nodes[1] = t0, not of its own time t0 + dt/2
-   (the code evaluates at coll.nodes[m] where the Butcher tableau's node of stage m+1 is coll.nodes[m+1]). *)
-Lemma rkn_stage_time_refuted :
+(* Regression fact for the defect repaired in /repo commit e4532e8 (the old code evaluated the fields of stage m at the
+   node of stage m-1): old and repaired behaviour are DISTINGUISHABLE on the shipped RKN tableau (nodes 0, 0, 1/2, 1/2, 1, 1 in
+   pySDC layout) — with fields that depend on time only, stage 2 of the model holds the fields of its own time t0 + dt/2 and
+   not those of t0 + dt*nodes[1] = t0 — so a return of the old behaviour cannot go unnoticed by the exact correspondence. *)
+Lemma rkn_old_stage_time_observable :
   exists (M : nat) (dt t0 : Qc) (nodes : nat -> Qc) (QI Qx : nat -> nat -> Qc)
          (feval : (unit -> Qc) -> (unit -> Qc) -> Qc -> Qc) (build_f : Qc -> (unit -> Qc) -> (unit -> Qc) -> Qc -> unit -> Qc)
          (boris : (unit -> Qc) -> Qc -> Qc -> Qc -> (unit -> Qc) -> (unit -> Qc) -> unit -> Qc) (st : @rkn_st Qc unit Qc) (m : nat),
     let r := rkn_update 0%Qc Qcplus Qcmult M dt t0 nodes QI Qx false feval build_f boris st in
-    (1 <= m < M)%nat /\ rf r m <> feval (rp r m) (rv r m) (rkn_tn Qcplus Qcmult dt t0 nodes m).
+    (1 <= m < M)%nat /\
+    rf r m = feval (rp r m) (rv r m) (rkn_tn Qcplus Qcmult dt t0 nodes m) /\
+    rf r m <> feval (rp r m) (rv r m) (rkn_tn Qcplus Qcmult dt t0 nodes (m - 1)).
 Proof.
   exists 5%nat, (Q2Qc 1), (Q2Qc 0),
     (fun i => nth i [Q2Qc 0; Q2Qc 0; Q2Qc (1#2); Q2Qc (1#2); Q2Qc 1; Q2Qc 1] (Q2Qc 0)),
     (fun _ _ => Q2Qc 0), (fun _ _ => Q2Qc 0),
     (fun _ _ t => t), (fun f _ _ _ _ => f), (fun _ _ _ _ _ v => v),
     {| rp := fun _ _ => Q2Qc 0; rv := fun _ _ => Q2Qc 0; rf := fun _ => Q2Qc 0 |}, 2%nat.
-  cbv zeta. split; [lia|]. intros H. apply (f_equal this) in H. vm_compute in H. discriminate H.
+  cbv zeta. split; [lia|]. split; [reflexivity|].
+  intros H. apply (f_equal this) in H. vm_compute in H. discriminate H.
 Qed.
